@@ -7,6 +7,8 @@ package machine
 // patterns (written out here independently of pkg/accounts and pkg/assets).
 
 import (
+	"encoding/json"
+	"math/big"
 	"regexp"
 )
 
@@ -57,4 +59,45 @@ func Harness_C28_monetary_value() {
 	verifAssert("C28:accepted-monetary-amount-is-non-negative", !m.Amount.Ltz())
 	verifReach("accepted")
 	verifReach("end")
+}
+
+// The same value submitted as JSON text (an object, a quoted string): no rendering of a
+// monetary may get an asset outside the pattern, or a negative amount, accepted.
+func c28MonetaryText(data string) {
+	v, err := NewValueFromString(TypeMonetary, data)
+	if err != nil {
+		verifReach("rejected")
+		verifReach("end")
+		return
+	}
+	m := v.(Monetary)
+	verifAssert("C28:accepted-monetary-asset-matches-the-asset-pattern", c28Asset.MatchString(string(m.Asset)))
+	verifAssert("C28:accepted-monetary-amount-is-non-negative", m.Amount != nil && !m.Amount.Ltz())
+	verifReach("accepted")
+	verifReach("end")
+}
+
+// the amount of the JSON forms is one of three concrete values (its sign is what matters); the asset is symbolic
+func c28Amount() *big.Int {
+	return big.NewInt(int64([]int{-1, 0, 7}[nondetChoice("amount-case", 3)]))
+}
+
+func Harness_C28_monetary_value_json_object() {
+	asset := nondetStr("asset", 6)
+	amount := c28Amount()
+	b, err := json.Marshal(map[string]any{"asset": asset, "amount": amount})
+	if err != nil {
+		panic(err)
+	}
+	c28MonetaryText(string(b))
+}
+
+func Harness_C28_monetary_value_json_string() {
+	asset := nondetStr("asset", 6)
+	amount := c28Amount()
+	b, err := json.Marshal(asset + " " + amount.String())
+	if err != nil {
+		panic(err)
+	}
+	c28MonetaryText(string(b))
 }
